@@ -23,7 +23,10 @@ from ..common import seed
 
 KEYS = fixtures.KEYS
 DOUBLES = [0.0, 1.0, -4.0, 1500.0, 6.4e-5, 58000.5, -0.1, 1.0 / 3.0, -3015.5, 123456.789]
-STRS = ["", "J0534+2200", "a b", "x" * 40, "verif.fil", "J1 ", " lead", "  pad  ", "tab\t"]
+STRS = ["", "J0534+2200", "a b", "x" * 40, "verif.fil", "J1 ", " lead", "  pad  ", "tab\t",
+        # longer than the 80 characters of the original C tools; a full archive path; key names (and the end marker) as TEXT inside a value
+        "y" * 81, "/archive/2026/10/01/" + "deep/" * 30 + "scan_0001.fil", "scan_fch1_1400_nbits8_tsamp_64us_nchans.fil",
+        "x_HEADER_END_y", "HEADER_START"]
 
 
 def pay_of(key, val):
@@ -49,7 +52,7 @@ def rand_items(rng, kmin=2):
         elif k == "nchans":
             val = rng.choice([1, 2, 64, 1024])
         elif fmt == "I":
-            val = rng.choice([0, 1, 7, 64, 70000, 2 ** 24 + 5])
+            val = rng.choice([0, 1, 7, 64, 70000, 2 ** 24 + 5, 2 ** 31, 2 ** 32 - 1])
         elif fmt == "b":
             val = rng.choice([0, 1])
         elif fmt == "d":
@@ -83,13 +86,22 @@ def codec_job(spec):
         evs.append(e)
     for i in range(spec["nedit"]):
         items = rand_items(rng, kmin=6)
+        decoy = i % 6 == 0
+        if decoy:      # a string value, EARLIER in the header, that contains the names of keys that follow it
+            items = [(k, v) for k, v in items if k != "rawdatafile"]
+            items.insert(0, ("rawdatafile", "scan_fch1_1400_nbits8_tsamp_64us_nchans_refdm.fil"))
+            for k, v in (("fch1", 1400.0), ("tsamp", 6.4e-5), ("refdm", 1.0)):
+                if k not in [kk for kk, _ in items]:
+                    items.append((k, v))
         hb = fixtures.encode_header(items)
         data = bytes(rng.randrange(256) for _ in range(rng.choice([1, 8, 33])))
         p = d / f"e_{spec['id']}_{i}.fil"
         p.write_bytes(hb + data)
         present = [k for k, _ in items]
         r = rng.random()
-        if r < 0.55:
+        if decoy:
+            key = rng.choice(["fch1", "nbits", "tsamp", "nchans", "refdm"])
+        elif r < 0.55:
             key = rng.choice(present)
         elif r < 0.8:
             key = rng.choice([k for k in KEYS if k not in present] or present)
@@ -158,7 +170,7 @@ def fields_job(spec):
                "zenith": Angle(rng.choice([0.0, 45.25, 89.999, rng.uniform(0, 90)]) * u.deg).to(rng.choice([u.deg, u.rad, u.arcmin])),
                "telescope": rng.choice(tels), "backend": rng.choice(backs), "frame": rng.choice(["topocentric", "barycentric", "pulsarcentric"]),
                "ibeam": rng.choice([0, 1, 13]), "nbeams": rng.choice([0, 1, 13]), "dm": rng.choice(DOUBLES[:8]),
-               "source": rng.choice(STRS[1:4] + STRS[5:8]), "tsamp": rng.choice([6.4e-5, 1.0 / 3.0, 0.001]),
+               "source": rng.choice(STRS[1:4] + STRS[5:8] + STRS[9:12]), "tsamp": rng.choice([6.4e-5, 1.0 / 3.0, 0.001]),
                "tstart": rng.choice([50000.0, 58000.123456789]), "fch1": rng.choice([1500.0, 433.1]),
                "foff": rng.choice([-0.1, 1.0 / 3.0, -4.0]), "nchans": rng.choice([1, 4, 1024]), "nbits": rng.choice([1, 2, 4, 8, 16, 32]),
                "nifs": rng.choice([1, 2])}
